@@ -371,4 +371,11 @@ def run(rep, repo, tier):
   rep.extra["configuration_points"] = n
   rep.require_instances("R1", 800)
   rep.require_instances("R2", 800)
+  # a quantizer configured with noise factor 1 keeps projecting onto its
+  # grid whatever happens to the factor of ANOTHER quantizer (shared with
+  # C07 R2)
+  from .c07 import rule_variable_isolation
+  if rule_variable_isolation(rep, repo, rule="R6") < 6:
+    raise AnalysisError("instance-count variable-isolation pairs")
+
   rep.require_instances("R5", 400)
